@@ -65,6 +65,15 @@ def roundtrip(res, e, do_values=True):
         where = f"{d[0]}.{d[1]}:{d[2]}->{d[3]}" if d else "?"
         res.fail("tree-changed@" + where,
                  f"{e!r} printed as {s!r} re-parsed as {e2!r}")
+    if k1 == k2:
+        # == does not tell 4 from 4.0 or 1 from True, the text does: with the same number
+        # of constants on both sides, their kinds (bool / int / float / complex) agree too
+        c1, c2 = _const_kinds(e), _const_kinds(e2)
+        if len(c1) == len(c2) and c1 != c2:
+            res.fail("constant-kind-changed",
+                     f"{e!r} printed as {s!r} re-parsed as {e2!r}: constants "
+                     f"{[x for x in c1 if x not in c2][:3]} became "
+                     f"{[x for x in c2 if x not in c1][:3]}")
     res.compared()
     try:
         s2 = str(e2)
@@ -88,6 +97,20 @@ def roundtrip(res, e, do_values=True):
         if not same:
             res.fail("value-changed", f"{e!r} -> {s!r} -> {e2!r}: {r1} vs {r2}")
     return s
+
+
+def _const_kinds(e):
+    out = []
+    for _, n in walk.occurrences(walk.pythonize(e)):
+        if isinstance(n, bool):
+            out.append(("bool", n))
+        elif isinstance(n, int):
+            out.append(("int", n))
+        elif isinstance(n, float):
+            out.append(("float", repr(n)))
+        elif isinstance(n, complex):
+            out.append(("complex", repr(n)))
+    return sorted(out, key=repr)
 
 
 def _classify(res, spec, e):
@@ -323,6 +346,19 @@ def tree_case(draw):
         spec = ["Lookup", spec, draw(st.sampled_from(NAMES[:10]))]
     elif c == 3:
         spec = ["Subscript", V("D"), ["Tuple", [spec, ["Slice", [None, V("k")]]]]]
+    elif c in (5, 6):
+        # sub-terms that are == but print differently (4 / 4.0, True / 1) next to each
+        # other: each is printed as what it is
+        k = draw(st.sampled_from((4, 2, 1)))
+        t1 = ["Product", [V("x"), ["Const", "int", k]]]
+        t2 = ["Product", [V("x"), ["Const", "float", float(k)]]]
+        t3 = ["Power", V("y"), ["Const", "bool", True]] if k == 1 else \
+            ["Power", V("y"), ["Const", "float", float(k)]]
+        parts = draw(st.permutations([t1, t2, t3, spec]))
+        spec = [draw(st.sampled_from(("Sum", "Sum", "Product"))), list(parts)[:draw(
+            st.integers(2, 4))]]
+        if draw(st.integers(0, 3)) == 0:
+            spec = ["Call", V("h"), [["Tuple", spec[1]], V("z")]]
     elif c == 4:
         inner = ["Tuple", [spec, V("y")]]
         outer = draw(st.sampled_from([[inner, V("z")], [V("z"), inner], [inner],
